@@ -23,12 +23,12 @@ Lemma cm_byte f (e : bool) b sv cur nm below p d s u q hi off x nb lo ln rest :
   (1 <= f)%nat -> (b =? 0) = false ->
   run_f sb f (b :: rest) (T DC (mksrec (if e then S_comment_end else S_comment) sv cur nm :: below) (mkgb p d s u q) hi off) (mkloc x nb lo ln) =
   run_f sb REDO_FUEL rest
-        (T DC (mksrec (if e then (if b =? 47 then S_eatws else S_comment) else (if b =? 42 then S_comment_end else S_comment)) sv cur nm :: below)
+        (T DC (mksrec (if e && (b =? 47) then S_eatws else if b =? 42 then S_comment_end else S_comment) sv cur nm :: below)
            (mkgb (p ++ [b]) d s u q) hi (off + 1)) (mkloc b nb lo ln).
 Proof.
   intros Hf Hb. fuel f. apply runT_C; [exact Hb|]. cbn [redo]. unfold step1.
-  destruct e; cbn [st top stack T s_state lc].
-  - destruct (b =? 47); reflexivity.
+  destruct e; cbn [st top stack T s_state lc andb].
+  - destruct (b =? 47) eqn:E47; cbn [andb]; [reflexivity|]. destruct (b =? 42); reflexivity.
   - destruct (b =? 42); reflexivity.
 Qed.
 
@@ -44,15 +44,11 @@ Proof.
     assert (Hb0 : (b =? 0) = false) by (destruct (b =? 0); [discriminate|reflexivity]).
     cbn [app]. rewrite cm_byte by assumption. cbn [block_st] in Hst.
     assert (F16 : (1 <= REDO_FUEL)%nat) by (unfold REDO_FUEL; lia).
-    destruct e.
-    + destruct (b =? 47); [discriminate|].
-      destruct (IH REDO_FUEL false e' sv cur nm below (p ++ [b]) d s u q hi (off + 1) b nb lo ln rest F16 Hz Hst)
-        as (f' & x' & p' & Hf' & ->).
-      exists f', x', p'. split; [exact Hf'|]. cbn [zlen]. f_equal. f_equal. lia.
-    + destruct (IH REDO_FUEL (b =? 42) e' sv cur nm below (p ++ [b]) d s u q hi (off + 1) b nb lo ln rest F16 Hz Hst)
-        as (f' & x' & p' & Hf' & E).
-      exists f', x', p'. split; [exact Hf'|]. cbn [zlen].
-      destruct (b =? 42); rewrite E; f_equal; f_equal; lia.
+    destruct (e && (b =? 47)); [discriminate|].
+    destruct (IH REDO_FUEL (b =? 42) e' sv cur nm below (p ++ [b]) d s u q hi (off + 1) b nb lo ln rest F16 Hz Hst)
+      as (f' & x' & p' & Hf' & E).
+    exists f', x', p'. split; [exact Hf'|]. cbn [zlen].
+    destruct (b =? 42); rewrite E; f_equal; f_equal; lia.
 Qed.
 
 Lemma cm_line_byte f b sv cur nm below p d s u q hi off x nb lo ln rest :
@@ -97,13 +93,13 @@ Proof.
   - exists b, g. cbn [app zlen]. destruct g as [p d s u q].
     erewrite runT_C; [reflexivity|unfold is_ws in Hw; lia|apply redo_ws; [lia|exact Hw]].
   - apply andb_true_iff in Hw. destruct Hw as [Hz Hst].
-    destruct (block_st false body) as [[|]|] eqn:Est; try discriminate.
+    destruct (block_st false body) as [e'|] eqn:Est; try discriminate.
     cbn [app]. rewrite cm_open; [|lia|left; reflexivity]. cbn [Z.eqb Pos.eqb].
     rewrite <- app_assoc.
-    destruct (cm_body body REDO_FUEL false false sv cur nm below [47; 42] (g_dbl g) (g_sp g) (g_ucs g) (g_q g) hi (off + 1 + 1) 42 nb lo ln
+    destruct (cm_body body REDO_FUEL false e' sv cur nm below [47; 42] (g_dbl g) (g_sp g) (g_ucs g) (g_q g) hi (off + 1 + 1) 42 nb lo ln
                 ([42; 47] ++ rest) F16 Hz Est) as (f1 & x1 & p1 & Hf1 & ->).
-    cbn [app]. rewrite (cm_byte f1 false 42) by (try assumption; reflexivity). cbn [Z.eqb Pos.eqb].
-    rewrite (cm_byte REDO_FUEL true 47) by (try assumption; reflexivity). cbn [Z.eqb Pos.eqb].
+    cbn [app]. rewrite (cm_byte f1 e' 42) by (try assumption; reflexivity). cbn [Z.eqb Pos.eqb]. rewrite andb_false_r.
+    rewrite (cm_byte REDO_FUEL true 47) by (try assumption; reflexivity). cbn [Z.eqb Pos.eqb andb].
     eexists _, _. f_equal. f_equal. cbn [zlen]. rewrite zlen_app. cbn [zlen]. lia.
   - apply andb_true_iff in Hw. destruct Hw as [Hz Hn].
     assert (Hn' : has_byte 10 body = false) by (destruct (has_byte 10 body); [discriminate|reflexivity]).
